@@ -79,7 +79,7 @@ Regs0 == [A |-> 0, F |-> 0, B |-> 17, C |-> 34, D |-> 51, E |-> 68, H |-> 64, L 
           IFF1 |-> FALSE, IFF2 |-> FALSE, IM |-> 0]
 DVal == 5
 Ctx0 == [r |-> Regs0, m |-> <<>>, dev |-> [mk |-> "const", seed |-> 0, val |-> 0, len |-> 65536],
-         io |-> [ik |-> "nil", seed |-> 0, len |-> 0], iom |-> <<>>, nin |-> 0, rd |-> <<>>, wr |-> <<>>, pio |-> <<>>,
+         io |-> [ik |-> "nil", seed |-> 0, len |-> 0], iom |-> <<>>, nin |-> 0, seen |-> <<>>, rd |-> <<>>, wr |-> <<>>, pio |-> <<>>,
          halt |-> FALSE, hc |-> <<0, 0>>, ovl |-> NoOvl, v |-> 0, u |-> 0, ralt |-> FALSE, tag |-> "",
          pend |-> [t |-> "none"], aei |-> FALSE, rslack |-> 0]
 
